@@ -598,6 +598,20 @@ impl VariableType {
     }
 }
 
+/// A domain bound as the grammar reads it back: infinities by name and no
+/// negative zero (`-0` would render a different text than the `0` it denotes).
+fn format_bound(value: f64) -> String {
+    if value == f64::INFINITY {
+        "Infinity".to_string()
+    } else if value == f64::NEG_INFINITY {
+        "MinusInfinity".to_string()
+    } else if value == 0.0 {
+        "0".to_string()
+    } else {
+        value.to_string()
+    }
+}
+
 impl fmt::Display for VariableType {
     fn fmt(&self, f: &mut fmt::Formatter<'_>) -> fmt::Result {
         let s = match self {
@@ -606,29 +620,13 @@ impl fmt::Display for VariableType {
                 (0.0, f64::INFINITY) => "NonNegativeReal".to_string(),
                 _ => format!(
                     "NonNegativeReal({}, {})",
-                    min,
-                    if *max == f64::INFINITY {
-                        "Infinity".to_string()
-                    } else {
-                        max.to_string()
-                    }
+                    format_bound(*min),
+                    format_bound(*max)
                 ),
             },
             VariableType::Real(min, max) => match (*min, *max) {
                 (f64::NEG_INFINITY, f64::INFINITY) => "Real".to_string(),
-                _ => format!(
-                    "Real({}, {})",
-                    if *min == f64::NEG_INFINITY {
-                        "MinusInfinity".to_string()
-                    } else {
-                        min.to_string()
-                    },
-                    if *max == f64::INFINITY {
-                        "Infinity".to_string()
-                    } else {
-                        max.to_string()
-                    }
-                ),
+                _ => format!("Real({}, {})", format_bound(*min), format_bound(*max)),
             },
             VariableType::IntegerRange(min, max) => format!("IntegerRange({}, {})", min, max),
         };
